@@ -1,0 +1,71 @@
+//go:build verif
+
+// Contracts for the deductive verification kept in /verif (govc). This file is
+// compiled only with the "verif" build tag and contains no code: every
+// contract lives in a comment block and is read by the verifier together with
+// the real source of this package.
+
+package deb
+
+/*@
+
+// ---------- the ar reader (C13 on well-formed archives, C15 on arbitrary bytes) ----------
+
+// a numeric header column: blank means 0, otherwise the decimal value of the trimmed text
+pure func numz(s string) int { trimspace(s) == "" ? 0 : val(trimspace(s), 0, len(trimspace(s))) }
+
+func toDecimal
+  ensures result1 == nil ==> len(input) >= 1 && alldig(input, 0, len(input)) && result0 == val(input, 0, len(input)) && result0 >= 0
+
+func checkAr
+  requires reader != nil
+  ensures result1 == nil ==> result0 == 8 && len(fileOf(reader)) >= 8
+  ensures result1 == nil ==> (forall k int :: 0 <= k && k < 8 ==> fileOf(reader)[k] == "!<arch>\n"[k])
+
+func LoadAr
+  requires in != nil
+  ensures result1 == nil ==> result0 != nil && fresh(result0) && result0.in == in && result0.offset == 8 && len(fileOf(in)) >= 8
+  ensures result1 != nil ==> result0 == nil
+
+func parseArEntry
+  ensures result1 != nil ==> result0 == nil && !sentinel(result1)
+  ensures result1 == nil ==> result0 != nil && fresh(result0)
+  // the two-byte header magic is required
+  ensures result1 == nil ==> len(line) == 60 && line[58] == 96 && line[59] == 10
+  // each field comes from its own columns, with its own trimming; blank numeric columns are 0
+  ensures result1 == nil ==> result0.Timestamp == numz(str(line[16:28])) && result0.OwnerID == numz(str(line[28:34]))
+  ensures result1 == nil ==> result0.GroupID == numz(str(line[34:40])) && result0.Size == numz(str(line[48:58]))
+  ensures result1 == nil ==> result0.FileMode == trimspace(str(line[40:48]))
+  ensures result1 == nil ==> 0 <= result0.Size && result0.Size <= 9999999999
+  ensures result1 == nil ==> result0.Data == nil
+  loop 1:
+    invariant len(line) == 60
+    invariant visited(mk(entryField, "Timestamp", &entry.Timestamp)) ? entry.Timestamp == numz(str(line[16:28])) : entry.Timestamp == 0
+    invariant visited(mk(entryField, "OwnerID", &entry.OwnerID)) ? entry.OwnerID == numz(str(line[28:34])) : entry.OwnerID == 0
+    invariant visited(mk(entryField, "GroupID", &entry.GroupID)) ? entry.GroupID == numz(str(line[34:40])) : entry.GroupID == 0
+    invariant visited(mk(entryField, "Size", &entry.Size)) ? entry.Size == numz(str(line[48:58])) : entry.Size == 0
+    invariant entry.FileMode == trimspace(str(line[40:48])) && entry.Data == nil
+
+func (*Ar).Next
+  requires d != nil && d.in != nil && 0 <= d.offset && d.offset <= len(fileOf(d.in)) + 1
+  // a value xor an error
+  ensures result1 != nil ==> result0 == nil && d.offset == old(d.offset)
+  ensures result1 == nil ==> result0 != nil && fresh(result0)
+  // progress: at least one 60-byte header per successful step (so at most len/60 steps), never backwards
+  ensures result1 == nil ==> d.offset >= old(d.offset) + 60 && d.offset <= len(fileOf(d.in)) + 1
+  // the returned member came from a header inside the file that carries the two-byte magic
+  ensures result1 == nil ==> old(d.offset) + 60 <= len(fileOf(d.in))
+  ensures result1 == nil ==> fileOf(d.in)[old(d.offset) + 58] == 96 && fileOf(d.in)[old(d.offset) + 59] == 10
+  // non-negative size, data completely inside the file, reader over exactly those bytes
+  ensures result1 == nil ==> result0.Size >= 0 && old(d.offset) + 60 + result0.Size <= len(fileOf(d.in))
+  ensures result1 == nil ==> result0.Data != nil && srBase(result0.Data) == d.in && srOff(result0.Data) == old(d.offset) + 60 && srLen(result0.Data) == result0.Size
+  // the iterator advances past the data and its padding
+  ensures result1 == nil ==> d.offset == old(d.offset) + 60 + result0.Size + result0.Size % 2
+  // end of archive is reported only at a clean end (nothing, or a lone newline, after the last member)
+  ensures result1 == io.EOF ==> old(d.offset) + 1 >= len(fileOf(d.in))
+  modifies d.offset
+
+property C13: toDecimal, checkAr, LoadAr, parseArEntry, (*Ar).Next
+property C15: toDecimal, checkAr, LoadAr, parseArEntry, (*Ar).Next
+
+@*/
